@@ -11,9 +11,11 @@ import PyElf.Proofs.Reloc
 import PyElf.Proofs.Relr
 import PyElf.Proofs.RelocApply
 import PyElf.Proofs.RelocSection
+import PyElf.Proofs.RelocSym
+import PyElf.Proofs.RelocDyn
 import PyElf.Props.TieC08
 namespace PyElf.Props.C08
-open PyElf PyElf.Spec PyElf.Model PyElf.Model.Reloc PyElf.Proofs PyElf.Proofs.Reloc
+open PyElf PyElf.Spec PyElf.Spec.RelocDyn PyElf.Model PyElf.Model.Reloc PyElf.Proofs PyElf.Proofs.Reloc PyElf.Proofs.RelocDyn
 
 /-! ### REL / RELA tables (sections and dynamic tables share `RelocationTable`) -/
 
@@ -142,16 +144,14 @@ theorem apply_frame (le : Bool) (w : Nat) (sec : Bytes) (off : Nat) (v : Int) (h
   writeField_frame le w sec off v h
 
 /-
-  FULL STATEMENT (whole section, symbol table included):
-    for the file `data` containing the table `encRelTable c rela es` at `base` and the symbol table
-    `syms.flatMap (rel_encSym cfg.le cfg.cls)` at `symtab.shOffset` with `symtab.shEntsize = symEntSize cfg.cls`,
-    `symtab.shSize = syms.length * symEntSize cfg.cls`, and `WFApply a c rela syms sec.length es`:
-      applySectionRelocations env (Spec.elfStructs cfg) cfg.le cfg.cls (archString a) data symtab t sec
-        = match applyStd a c rela syms sec es with | some b => .ok b | none => .error .elfRelocError
-  Proved below with one extra hypothesis `hsym`: parsing symbol `i` with `Elf_Sym` yields `st_value = syms[i]`.
-  (`Elf_Sym` is a BitStruct/Enum-bearing struct whose parse depends on `env`; its layout is tied by
-  `TieC08.elf_Elf_Sym`, its decoding is the subject of the symbol-table property and is covered here by the
-  correspondence harness, which assembles the symbol table with `Spec.rel_encSym`.)
+  Whole section, symbol table included.  `apply_section_eq_std` (below) is the full statement: the file holds the
+  relocation table `encRelTable c rela es` at `base` and the symbol table `syms.flatMap (rel_encSym cfg.le cfg.cls)` at
+  `symtab.shOffset`, with `symtab.shEntsize = symEntSize cfg.cls`, `symtab.shSize = syms.length * symEntSize cfg.cls`.
+  `apply_section_eq_std_partial` is the earlier form with the abstract hypothesis `hsym` (parsing symbol `i` with
+  `Elf_Sym` yields `st_value = syms[i]`) in place of the symbol table's encoding; it is kept because it also covers
+  symbol tables that are not value-only (any entry whose parse succeeds with that `st_value`).  `hsym` is discharged
+  for the Spec encoder by `symtab_entry_st_value` (via C03's `sym_roundtrip32/64`: `rel_encSym` is C03's `encSym` of
+  the entry ⟨0, value, 0, 0, 0, 0⟩).
 -/
 /-- Model = standard for a whole relocation section applied to a debug section: relocations are decoded from the
     table one by one and applied in order; the result is the standard's fold, or ELFRelocationError as soon as one
@@ -182,6 +182,83 @@ theorem apply_section_eq_std_partial (cfg : ElfCfg) (hcls : cfg.cls = 32 ∨ cfg
   rw [List.drop_zero] at this
   simp only [bind, Except.bind]
   exact this
+
+/-- The symbol table side, both classes and byte orders: in any file holding `syms.flatMap (rel_encSym le cls)` at
+    `symoff`, `Elf_Sym` parsed at `symoff + i · symEntSize` succeeds and `sym['st_value']` is `syms[i]`. -/
+theorem symtab_entry_st_value (cfg : ElfCfg) (hcls : cfg.cls = 32 ∨ cfg.cls = 64) (env : Env) (syms : List Nat)
+    (hsyms : ∀ s ∈ syms, s < 2 ^ cfg.cls) (data rest : Bytes) (symoff : Nat)
+    (hd : data.drop symoff = syms.flatMap (rel_encSym cfg.le cfg.cls) ++ rest)
+    (hfit : symoff + syms.length * symEntSize cfg.cls ≤ 2 ^ 63) (i : Nat) (h : i < syms.length) :
+    ∃ symv, seekParse env (Spec.elfStructs cfg).Elf_Sym data (symoff + i * symEntSize cfg.cls) = .ok symv ∧
+      symv.getInt "st_value" = .ok (syms[i] : Int) :=
+  symtab_st_value cfg hcls env syms hsyms hd hfit i h
+
+/-- FULL STATEMENT.  Model = standard for a whole relocation section applied to a debug section, symbol table included:
+    `data` is any file that holds the relocation table at `base` and the value-only symbol table at `symtab.shOffset`
+    (anything before, between and after them; either order), the symbol-table header describes it (`sh_entsize` the
+    ElfN_Sym size, `sh_size` the table's length).  Relocations are decoded one by one, each symbol is fetched from the
+    file with `Elf_Sym`, and the result is the standard's fold, or ELFRelocationError as soon as one entry must be
+    rejected. -/
+theorem apply_section_eq_std (cfg : ElfCfg) (hcls : cfg.cls = 32 ∨ cfg.cls = 64) (env : Env) (a : Arch)
+    (hm : (relCfgOf cfg).mips = decide (a = .mips)) (rela : Bool) (es : List RelEntry) (syms : List Nat) (sec : Bytes)
+    (symtab : SymTab) (data : Bytes) (base : Nat) (rest rest' : Bytes)
+    (hrel : data.drop base = encRelTable (relCfgOf cfg) rela es ++ rest)
+    (hsymtab : data.drop symtab.shOffset = syms.flatMap (rel_encSym cfg.le cfg.cls) ++ rest')
+    (hentsz : symtab.shEntsize = symEntSize cfg.cls) (hsize : symtab.shSize = syms.length * symEntSize cfg.cls)
+    (hfit : base + es.length * relEntSize (relCfgOf cfg) rela ≤ 2 ^ 63)
+    (hfitS : symtab.shOffset + syms.length * symEntSize cfg.cls ≤ 2 ^ 63)
+    (hwf : WFApply a (relCfgOf cfg) rela syms sec.length es = true) :
+    applySectionRelocations env (Spec.elfStructs cfg) cfg.le cfg.cls (archString a) data symtab
+        (specTable cfg (some base) (encRelTable (relCfgOf cfg) rela es).length rela) sec
+      = match applyStd a (relCfgOf cfg) rela syms sec es with
+        | some b => .ok b
+        | none => .error .elfRelocError := by
+  have hwf' := hwf
+  simp only [WFApply, Bool.and_eq_true, List.all_eq_true, decide_eq_true_eq] at hwf'
+  obtain ⟨⟨hes, hsy⟩, hL⟩ := hwf'
+  have hpos := symEntSize_pos cfg.cls
+  have hent : symtab.shEntsize ≠ 0 := by omega
+  have hcount : symtab.shSize / symtab.shEntsize = syms.length := by
+    rw [hsize, hentsz, Nat.mul_div_cancel _ hpos]
+  unfold applySectionRelocations
+  rw [numRelocations_spec cfg hcls rela es]
+  have := applyLoop_eq_std cfg hcls env a hm rela es syms sec.length symtab
+    (size := (encRelTable (relCfgOf cfg) rela es).length) hrel hfit hes hL hent hcount
+    (by
+      intro i h
+      rw [hentsz]
+      exact symtab_st_value cfg hcls env syms hsy hsymtab hfitS i h)
+    es.length 0 sec (by omega) rfl
+  rw [List.drop_zero] at this
+  simp only [bind, Except.bind]
+  exact this
+
+/-- the same for the concrete layout `pre ++ relocation table ++ mid ++ symbol table ++ post` -/
+theorem apply_section_eq_std_layout (cfg : ElfCfg) (hcls : cfg.cls = 32 ∨ cfg.cls = 64) (env : Env) (a : Arch)
+    (hm : (relCfgOf cfg).mips = decide (a = .mips)) (rela : Bool) (es : List RelEntry) (syms : List Nat) (sec : Bytes)
+    (pre mid post : Bytes)
+    (hfit : pre.length + (encRelTable (relCfgOf cfg) rela es).length + mid.length
+              + syms.length * symEntSize cfg.cls ≤ 2 ^ 63)
+    (hwf : WFApply a (relCfgOf cfg) rela syms sec.length es = true) :
+    let relTab := encRelTable (relCfgOf cfg) rela es
+    let symTab := syms.flatMap (rel_encSym cfg.le cfg.cls)
+    applySectionRelocations env (Spec.elfStructs cfg) cfg.le cfg.cls (archString a)
+        (pre ++ relTab ++ mid ++ symTab ++ post)
+        ⟨pre.length + relTab.length + mid.length, symTab.length, symEntSize cfg.cls⟩
+        (specTable cfg (some pre.length) relTab.length rela) sec
+      = match applyStd a (relCfgOf cfg) rela syms sec es with
+        | some b => .ok b
+        | none => .error .elfRelocError := by
+  intro relTab symTab
+  have hlen : (encRelTable (relCfgOf cfg) rela es).length = es.length * relEntSize (relCfgOf cfg) rela :=
+    encRelTable_length _ hcls rela es
+  refine apply_section_eq_std cfg hcls env a hm rela es syms sec _ _ pre.length (mid ++ symTab ++ post) post
+    ?_ ?_ rfl (encSymTable_length cfg.le cfg.cls syms) (by omega) (by simpa using hfit) hwf
+  · simp [relTab, List.append_assoc]
+  · show List.drop (pre.length + relTab.length + mid.length) _ = _
+    have e : pre.length + relTab.length + mid.length = (pre ++ relTab ++ mid).length := by
+      simp only [List.length_append]
+    rw [e, drop_pre]
 
 /-- rejections: a symbol index outside the symbol table is ELFRelocationError (before anything is read) -/
 theorem apply_rejects_symbol (env : Env) (S : ElfStructs) (le : Bool) (cls : Nat) (arch : String) (data : Bytes)
@@ -215,16 +292,130 @@ theorem apply_rejects_type (a : Arch) (c : RelCfg) (hm : c.mips = decide (a = .m
 
 /-- `relocate_dwarf_sections=False`: the section contents are returned untouched, whatever relocation sections exist -/
 theorem relocate_false_identity (env : Env) (S : ElfStructs) (le : Bool) (cls : Nat) (arch : String) (data : Bytes)
-    (secs : List SecHdr) (symtabOf : Nat → Option SymTab) (name : String) (sectionData : Bytes) :
+    (secs : List Reloc.SecHdr) (symtabOf : Nat → Option SymTab) (name : String) (sectionData : Bytes) :
     readDwarfSection env S le cls arch data secs symtabOf name sectionData false false = .ok sectionData := by
   simp [readDwarfSection, pure, Except.pure]
 
 /-- a section without a `.rel`/`.rela` companion is returned untouched as well -/
 theorem relocate_no_relsec_identity (env : Env) (S : ElfStructs) (le : Bool) (cls : Nat) (arch : String) (data : Bytes)
-    (secs : List SecHdr) (symtabOf : Nat → Option SymTab) (name : String) (sectionData : Bytes)
+    (secs : List Reloc.SecHdr) (symtabOf : Nat → Option SymTab) (name : String) (sectionData : Bytes)
     (h : findRelocations S name secs = .ok none) :
     readDwarfSection env S le cls arch data secs symtabOf name sectionData true false = .ok sectionData := by
   simp [readDwarfSection, h, bind, Except.bind, pure, Except.pure]
+
+/-! ### dynamic relocation tables: `Dynamic.get_relocation_tables` -/
+
+/-- The dynamic array, both classes and byte orders: the `Elf_Dyn` entries `tags` followed by a DT_NULL entry, placed
+    anywhere in a file, are read up to and including the DT_NULL (whatever follows is not looked at); tag numbers are
+    presented by name where the environment has one. -/
+theorem dyn_tags_roundtrip (cfg : ElfCfg) (hcls : cfg.cls = 32 ∨ cfg.cls = 64) (env : Env)
+    (henv : DTagEnv env (dTagTable cfg.mclass cfg.solaris)) (tags : List DynEntry) (nv : Nat)
+    (hwf : ∀ e ∈ tags ++ [(DT_NULL, nv)], WFDyn cfg.cls e = true) (hnn : ∀ e ∈ tags, e.1 ≠ DT_NULL)
+    (data rest : Bytes) (off : Nat)
+    (hd : data.drop off = encDynArray cfg.le cfg.cls (tags ++ [(DT_NULL, nv)]) ++ rest)
+    (hfit : off + (tags.length + 1) * (2 * (cfg.cls / 8)) ≤ 2 ^ 63) :
+    iterTags env (Spec.elfStructs cfg) data off false
+      = .ok ((tags ++ [(DT_NULL, nv)]).map fun e => (dtagVal env (dTagTable cfg.mclass cfg.solaris) e.1, e.2)) :=
+  iterTags_spec cfg hcls env henv tags nv hwf hnn hd hfit
+
+/-- Exactness of `get_relocation_tables`.  A dynamic array whose relocation-related entries are those describing `d`
+    (DT_REL/DT_RELSZ/DT_RELENT, DT_RELA/DT_RELASZ/DT_RELAENT, DT_RELR/DT_RELRSZ/DT_RELRENT, DT_JMPREL/DT_PLTRELSZ/
+    DT_PLTREL — in any order, amid any other entries), terminated by DT_NULL, anywhere in the file: the result has
+    exactly the tables of `d`, in the order REL, RELA, RELR, JMPREL; each table's file offset is its address mapped
+    through the PT_LOAD segment holding it (`None` when no segment does), its size the *SZ value, its entry struct
+    and entry size those of its flavour (JMPREL: the flavour DT_PLTREL names).  `specDynTables` builds the table
+    objects from `specTable` / `specRelr`, i.e. the very objects `rel_roundtrip` and `relr_eq_std` are about. -/
+theorem dyn_reloc_tables_exact (cfg : ElfCfg) (hcls : cfg.cls = 32 ∨ cfg.cls = 64) (env : Env)
+    (henv : DTagEnv env (dTagTable cfg.mclass cfg.solaris)) (d : DynRelocs) (tags : List DynEntry) (nv : Nat)
+    (loads : List LoadSeg) (data rest : Bytes) (off : Nat)
+    (hd : data.drop off = encDynArray cfg.le cfg.cls (tags ++ [(DT_NULL, nv)]) ++ rest)
+    (hfit : off + (tags.length + 1) * (2 * (cfg.cls / 8)) ≤ 2 ^ 63)
+    (hwf : ∀ e ∈ tags ++ [(DT_NULL, nv)], WFDyn cfg.cls e = true) (hnn : ∀ e ∈ tags, e.1 ≠ DT_NULL)
+    (hdesc : DynDescribes (relCfgOf cfg) d tags = true) (hd0 : WFDynRelocs d = true) :
+    (do let tg ← iterTags env (Spec.elfStructs cfg) data off false
+        getRelocationTables (Spec.elfStructs cfg) tg (loads.map toLoad))
+      = .ok (specDynTables cfg loads d) ∧
+    (specDynTables cfg loads d).map (fun p => (p.1, obsDynTable p.2)) = dynTablesStd (relCfgOf cfg) loads d := by
+  refine ⟨?_, specDynTables_obs cfg loads d⟩
+  rw [iterTags_spec cfg hcls env henv tags nv hwf hnn hd hfit]
+  show getRelocationTables _ _ _ = _
+  exact getRelocationTables_spec cfg hcls _ loads d hd0
+    (fun name k hp hk => tagsOf_described henv hdesc nv hp hk)
+
+/-- the library's own environment satisfies `DTagEnv` for every configuration (TieC08.dtag_env), so the theorem
+    holds of `elfEnv` outright -/
+theorem dyn_reloc_tables_exact_elfEnv (cfg : ElfCfg) (hcls : cfg.cls = 32 ∨ cfg.cls = 64)
+    (d : DynRelocs) (tags : List DynEntry) (nv : Nat) (loads : List LoadSeg) (data rest : Bytes) (off : Nat)
+    (hd : data.drop off = encDynArray cfg.le cfg.cls (tags ++ [(DT_NULL, nv)]) ++ rest)
+    (hfit : off + (tags.length + 1) * (2 * (cfg.cls / 8)) ≤ 2 ^ 63)
+    (hwf : ∀ e ∈ tags ++ [(DT_NULL, nv)], WFDyn cfg.cls e = true) (hnn : ∀ e ∈ tags, e.1 ≠ DT_NULL)
+    (hdesc : DynDescribes (relCfgOf cfg) d tags = true) (hd0 : WFDynRelocs d = true) :
+    (do let tg ← iterTags elfEnv (Spec.elfStructs cfg) data off false
+        getRelocationTables (Spec.elfStructs cfg) tg (loads.map toLoad))
+      = .ok (specDynTables cfg loads d) :=
+  (dyn_reloc_tables_exact cfg hcls elfEnv (TieC08.dtag_env _ _) d tags nv loads data rest off hd hfit hwf hnn hdesc hd0).1
+
+/-- address translation: the model's `address_offsets` walk is the standard's `fileOffset` -/
+theorem address_offset_eq_std (loads : List LoadSeg) (a : Nat) :
+    addressOffset (loads.map toLoad) a = fileOffset loads a :=
+  addressOffset_spec loads a
+
+/-! ### `find_relocations_for_section` -/
+
+/-- Exactness of `find_relocations_for_section`: over section headers that are what `descs` describes, the result is
+    the standard's `relocSectionFor` — `None` when no SHT_REL/SHT_RELA section is named `.rel<target>`/`.rela<target>`,
+    otherwise the first such section, as a table object of its flavour over its `sh_offset`/`sh_size`. -/
+theorem find_relocations_exact (cfg : ElfCfg) (hcls : cfg.cls = 32 ∨ cfg.cls = 64) (target : String)
+    (hdrs : List Reloc.SecHdr) (descs : List RelSecDesc) (hdesc : AllDescribe (relCfgOf cfg) hdrs descs) :
+    match relocSectionFor target descs with
+    | none => findRelocations (Spec.elfStructs cfg) target hdrs = .ok none
+    | some s => ∃ h ∈ hdrs, ∃ r, s ∈ descs ∧ s.rela = some r ∧ SecDescribes (relCfgOf cfg) h s ∧
+        findRelocations (Spec.elfStructs cfg) target hdrs
+          = .ok (some (h, specTable cfg (some s.offset) s.size r)) :=
+  findRelocations_spec cfg hcls target hdrs descs hdesc
+
+/-- a relocation section of the wrong `sh_entsize` met before any match is the library's ELFError, whatever its name -/
+theorem find_relocations_malformed (cfg : ElfCfg) (hcls : cfg.cls = 32 ∨ cfg.cls = 64) (target : String)
+    (good : List Reloc.SecHdr) (descs : List RelSecDesc) (bad : Reloc.SecHdr) (rest : List Reloc.SecHdr) (r : Bool)
+    (hdesc : AllDescribe (relCfgOf cfg) good descs) (hnone : relocSectionFor target descs = none)
+    (hty : bad.shType = .str (if r then "SHT_RELA" else "SHT_REL")) (hent : bad.shEntsize ≠ relEntSize (relCfgOf cfg) r) :
+    findRelocations (Spec.elfStructs cfg) target (good ++ bad :: rest) = .error .elfError :=
+  findRelocations_malformed cfg hcls target good descs bad rest r hdesc hnone hty hent
+
+/-- End to end, `_read_dwarf_section(section, relocate_dwarf_sections=True)`: the section headers are what `descs`
+    describes, the standard's lookup finds the relocation section `s` (flavour `rela`) for the section named `target`,
+    the file holds `s`'s table at `s.offset` and — at the symbol table section `s.link` designates — the value-only
+    symbol table: the stream the DWARF parser receives is the standard's fold of the relocations over the section
+    contents, or ELFRelocationError as soon as one entry must be rejected. -/
+theorem read_dwarf_section_relocated (cfg : ElfCfg) (hcls : cfg.cls = 32 ∨ cfg.cls = 64) (env : Env) (a : Arch)
+    (hm : (relCfgOf cfg).mips = decide (a = .mips)) (rela : Bool) (es : List RelEntry) (syms : List Nat) (sec : Bytes)
+    (target : String) (hdrs : List Reloc.SecHdr) (descs : List RelSecDesc)
+    (hdesc : AllDescribe (relCfgOf cfg) hdrs descs)
+    (s : RelSecDesc) (hfound : relocSectionFor target descs = some s) (hflav : s.rela = some rela)
+    (symtabOf : Nat → Option SymTab) (symtab : SymTab) (hlink : symtabOf s.link = some symtab)
+    (data rest rest' : Bytes)
+    (hrel : data.drop s.offset = encRelTable (relCfgOf cfg) rela es ++ rest)
+    (hsize : s.size = (encRelTable (relCfgOf cfg) rela es).length)
+    (hsymtab : data.drop symtab.shOffset = syms.flatMap (rel_encSym cfg.le cfg.cls) ++ rest')
+    (hentsz : symtab.shEntsize = symEntSize cfg.cls) (hsizeS : symtab.shSize = syms.length * symEntSize cfg.cls)
+    (hfit : s.offset + es.length * relEntSize (relCfgOf cfg) rela ≤ 2 ^ 63)
+    (hfitS : symtab.shOffset + syms.length * symEntSize cfg.cls ≤ 2 ^ 63)
+    (hwf : WFApply a (relCfgOf cfg) rela syms sec.length es = true) :
+    readDwarfSection env (Spec.elfStructs cfg) cfg.le cfg.cls (archString a) data hdrs symtabOf target sec true false
+      = match applyStd a (relCfgOf cfg) rela syms sec es with
+        | some b => .ok b
+        | none => .error .elfRelocError := by
+  have hf := find_relocations_exact cfg hcls target hdrs descs hdesc
+  rw [hfound] at hf
+  obtain ⟨h, _, r, _, hr, hd, hfind⟩ := hf
+  have hrr : r = rela := by rw [hflav] at hr; cases hr; rfl
+  subst hrr
+  have hl : h.shLink = s.link := hd.2.2.2.1
+  unfold readDwarfSection
+  simp only [hfind, bind, Except.bind, hl, hlink, Bool.false_eq_true, ↓reduceIte]
+  rw [hsize]
+  exact apply_section_eq_std cfg hcls env a hm r es syms sec symtab data s.offset rest rest' hrel hsymtab hentsz hsizeS
+    hfit hfitS hwf
 
 /-! ### non-vacuity -/
 
@@ -237,5 +428,19 @@ example : WFApplyOne .x64 ⟨true, 64, false⟩ true 12 { offset := 8, sym := 1,
 example : applyAfterSym .x64 ⟨true, 64, false⟩ true 0 [0, 0, 0, 0, 0xaa, 0xaa, 0xaa, 0xaa, 1, 2, 3, 4]
     { offset := 8, sym := 1, type := 2, addend := -4 } = some [0, 0, 0, 0, 0xaa, 0xaa, 0xaa, 0xaa, 0xf4, 0xff, 0xff, 0xff] := by decide
 example : flavourOk .ppc64 false = false := rfl
+example : WFApply .x64 ⟨true, 64, false⟩ true [0, 0x1000] 12 [{ offset := 8, sym := 1, type := 2, addend := -4 }] = true := by decide
+example : rel_encSym true 64 0x1000 = [0, 0, 0, 0, 0, 0, 0, 0, 0, 0x10, 0, 0, 0, 0, 0, 0, 0, 0, 0, 0, 0, 0, 0, 0] := by decide
+-- a dynamic array with DT_NEEDED, a RELA table, DT_FLAGS_1 in between, and PLT relocations of flavour REL
+example : DynDescribes ⟨true, 64, false⟩
+    { rela := some ⟨0x1000, 48⟩, jmprel := some (⟨0x2000, 32⟩, false) }
+    [(1, 1), (DT_PLTREL, 17), (DT_RELASZ, 48), (DT_RELA, 0x1000), (0x6ffffffb, 1), (DT_RELAENT, 24), (DT_JMPREL, 0x2000),
+     (DT_PLTRELSZ, 32)] = true := by decide
+example : WFDynRelocs { rela := some ⟨0x1000, 48⟩, jmprel := some (⟨0x2000, 32⟩, false) } = true := by decide
+example : dynTablesStd ⟨true, 64, false⟩ [⟨0, 0x800, 0⟩, ⟨0x1000, 0x100, 0x800⟩]
+    { rela := some ⟨0x1010, 48⟩, jmprel := some (⟨0x2000, 32⟩, false) }
+    = [("RELA", .rel (some 0x810) 48 24 true), ("JMPREL", .rel none 32 16 false)] := by decide
+example : relocSectionFor ".debug_info"
+    [⟨".text", none, 64, 16, 0⟩, ⟨".rela.text", some true, 200, 48, 5⟩, ⟨".rela.debug_info", some true, 248, 24, 5⟩]
+    = some ⟨".rela.debug_info", some true, 248, 24, 5⟩ := by decide
 
 end PyElf.Props.C08
